@@ -36,7 +36,7 @@ func init() {
 				c.Broken("local.sharedSector not found")
 				return
 			}
-			lock, data := structField(n, "lock"), structField(n, "data")
+			lock, data := mutexField(n, "lock"), structField(n, "data")
 			if lock == nil || data == nil {
 				c.Broken("sharedSector.lock / data not found")
 				return
@@ -44,7 +44,7 @@ func init() {
 			spec := &LockSpec{RuleID: c.rule.ID, Pkg: c.Pkg(localRel), Lock: lock,
 				Guards:  []LockGuard{{Name: "sharedSector.data", Field: data, Req: 2, ReadReq: 2}},
 				InScope: recvIn("blockDeviceBackedBlockWriter", "blockDeviceBackedBlock", "blockDeviceBackedBlockAllocator"),
-				IsEntry: func(fd *ast.FuncDecl) bool { return true },
+				IsEntry: func(fd *ast.FuncDecl) bool { return fd.Name.IsExported() },
 			}
 			la := newLockAnalysis(c.Program, spec)
 			la.Run()
@@ -71,7 +71,7 @@ func runR044(c *Ctx) {
 		c.Broken("blockDeviceBackedBlockAllocator not found")
 		return
 	}
-	lock, free := structField(n, "lock"), structField(n, "freeOffsets")
+	lock, free := mutexField(n, "lock"), structField(n, "freeOffsets")
 	if lock == nil || free == nil {
 		c.Broken("allocator lock / freeOffsets not found")
 		return
@@ -79,7 +79,7 @@ func runR044(c *Ctx) {
 	spec := &LockSpec{RuleID: c.rule.ID, Pkg: c.Pkg(localRel), Lock: lock,
 		Guards:  []LockGuard{{Name: "freeOffsets", Field: free, Req: 2, ReadReq: 2}},
 		InScope: recvIn("blockDeviceBackedBlockWriter", "blockDeviceBackedBlock", "blockDeviceBackedBlockAllocator", "blockDeviceBackedBlockReader"),
-		IsEntry: func(fd *ast.FuncDecl) bool { return true },
+		IsEntry: func(fd *ast.FuncDecl) bool { return fd.Name.IsExported() },
 	}
 	la := newLockAnalysis(c.Program, spec)
 	la.Run()
